@@ -448,7 +448,7 @@ func runC09(c *Ctx) {
 func runC16(c *Ctx) {
 	r := c.R
 	r.Rule = "arithmetic: the real ircConn.rate (hook sets writeDelay/lastWrite, reads writeDelay back) vs the model on random and boundary (writeDelay, since, size) triples, " +
-		"exact away from the 8 s threshold (clock jitter tolerated within 5 ms); timing part: see the burst runs; non-trivial = writeDelay+cost within 2 s of the threshold or since > 0; distinct = distinct triple"
+		"exact away from the 8 s threshold (clock jitter tolerated within 5 ms); timing: a serial lock-step sender on a real connection (PRIVMSG/WHO/JOIN/NOTICE mixed with PING/PONG, AllowFlood on and off): every observed hold >= the model's delay (lower bound only), keep-alives and AllowFlood never held, order kept; non-trivial = writeDelay+cost within 2 s of the threshold or since > 0; distinct = distinct triple"
 	sec := int64(time.Second)
 	for i := 0; i < 3000*c.Scale; i++ {
 		wd := int64(c.Rng.Intn(12)) * sec
@@ -590,6 +590,61 @@ func cmdExecRunner(c *Ctx, in map[string]string) {
 	impl := strings.Join(addRes, " ") + " | " + action
 	if impl != model {
 		c.R.Mismatch("cmdexec", hin, impl, model)
+	}
+	// the property itself, evaluated on the implementation: for an addressed registered command the function runs with the
+	// arguments split on SINGLE spaces and the raw remainder iff at least MinArgs are present, else a usage reply
+	if e.Source != nil && e.Command == "PRIVMSG" && strings.HasPrefix(e.Last(), pfx) {
+		rest := e.Last()[len(pfx):]
+		name, raw := rest, ""
+		hasArgs := false
+		if i := strings.IndexByte(rest, ' '); i >= 0 {
+			name, raw, hasArgs = rest[:i], rest[i+1:], true
+		}
+		_ = hasArgs
+		validName := len(name) >= 1 && len(name) <= 20 && strings.Trim(name, "abcdefghijklmnopqrstuvwxyz0123456789-_") == ""
+		if validName && name != "help" && !strings.Contains(raw, "\n") {
+			// which registered command (by the Add results) owns this name?
+			owner, minArgs := -1, 0
+			for i := 0; i < n; i++ {
+				if addRes[i] != "ok" {
+					continue
+				}
+				nm := strings.ToLower(in[fmt.Sprintf("c%d.name", i)])
+				names := []string{nm}
+				if a := in[fmt.Sprintf("c%d.aliases", i)]; a != "" {
+					for _, al := range strings.Split(a, "\x00") {
+						names = append(names, strings.ToLower(al))
+					}
+				}
+				for _, x := range names {
+					if x == name && owner < 0 {
+						owner = i
+						minArgs, _ = strconv.Atoi(in[fmt.Sprintf("c%d.min", i)])
+					}
+				}
+			}
+			allOK := true
+			for _, r := range addRes {
+				if r != "ok" {
+					allOK = false // partially registered tables are compared with the model only
+				}
+			}
+			if owner >= 0 && allOK {
+				want := []string{}
+				if raw != "" {
+					want = strings.Split(raw, " ")
+				}
+				var expect string
+				if len(want) < minArgs {
+					expect = "usage " + hx(name)
+				} else {
+					expect = fmt.Sprintf("invoke %d %s %s", owner, hxList(want), hx(raw))
+				}
+				if action != expect {
+					c.R.Violation("cmd.addressed", hin, action, expect, "an addressed registered command was not handled as the property states (function with single-space-split args / usage reply)")
+				}
+			}
+		}
 	}
 }
 
